@@ -66,6 +66,8 @@ def sym_state(ctx, model, n, sb, name="a", kind="real"):
     bonds = [1] + [sb] * (n - 1) + [1]
     m = Mps()
     m.model = model
+    if (not ctx.symbolic) and kind == "cplx":
+        m.to_complex(inplace=True)
     for i in range(n):
         m.append(ctx.array("%s%d" % (name, i), (bonds[i], model.pbond_list[i], bonds[i + 1]), kind))
     m.build_empty_qn()
